@@ -933,6 +933,7 @@ def _callable(draw, idx, seq):
     if kind != 'signal' and draw(st.integers(0, 3)) == 2:
         i = draw(st.integers(0, len(kinds)))
         kinds[i:i] = draw(st.sampled_from([['cb', 'gpointer'], ['cb', 'gpointer', 'GDestroyNotify'], ['gpointer', 'cb', 'GDestroyNotify'],
+                                           ['GDestroyNotify', 'cb', 'gpointer'],
                                            ['GAsyncReadyCallback', 'gpointer'], ['int*', 'gsize'], ['strv', 'int'], ['rec**', 'gsize*'],
                                            ['cb', 'gpointer', 'gpointer']]))
         kinds = kinds[:6]
@@ -960,6 +961,13 @@ def _callable(draw, idx, seq):
             if 'user_data' not in [p['name'] for p in params]:
                 params[j]['name'] = 'user_data'
             forced[j] = [draw(st.sampled_from([['not', 'nullable'], ['not', 'nullable'], ['nullable'], ['skip']]))]
+    # references to the FIRST parameter (index 0 is where a truthiness test on the index goes wrong): a callback whose
+    # user data or destroy notify comes first, named explicitly
+    if kind != 'signal' and len(params) >= 2 and params[0]['kind'] in ('gpointer', 'GDestroyNotify') and draw(st.booleans()):
+        for j in range(1, len(params)):
+            if params[j]['kind'] == 'cb' and j not in forced:
+                forced[j] = [['closure' if params[0]['kind'] == 'gpointer' else 'destroy', params[0]['name']]]
+                break
     for j in range(len(params)):
         draw(_annotations(c, j))
     draw(_annotations(c, 'ret'))
